@@ -211,6 +211,42 @@ def residual_fixed_group(rep: Report, rng: random.Random, n: int) -> None:
             return
 
 
+def scale_elementwise_cases(rep: Report, rng: random.Random, n: int) -> None:
+    """core.functional.scale_elementwise (the combinator gelu/silu are built from) on ARBITRARY element-wise functions:
+    forward = f(x) * c_out, input gradient = f'(x) * up * c_in with (c_out, c_in) = the named rule applied to the two
+    given scales -- expected values from TLC (kind "mean").  Reported non-gating: outside the property's list of ops."""
+    from unit_scaling.core.functional import scale_elementwise
+
+    vals = [Fraction(1, 4), Fraction(1, 3), Fraction(1, 2), Fraction(2), Fraction(3), Fraction(5, 2), Fraction(7, 5)]
+    pairs = [[rng.choice(vals), rng.choice(vals)] for _ in range(n)]
+    ev = common.tlc_eval("ScaledOps_Eval", "ScaledOps_Eval.cfg", [{"kind": "mean", "s": [[v.numerator, v.denominator] for v in pr]} for pr in pairs], tag="selw")
+    rep.states += ev["states"]
+    rep.transitions += ev["transitions"]
+    fns = [("tanh", torch.tanh, (), lambda x: 1 - torch.tanh(x) ** 2), ("sin", torch.sin, (), torch.cos),
+           ("mul_arg", lambda x, a: x * a, (1.5,), lambda x: torch.full_like(x, 1.5))]
+    for (so, si), e in zip(pairs, ev["out"]):
+        o, i = float(so), float(si)
+        want = {"__default__": (o, o), None: (o, i), "to_output_scale": (o, o), "to_grad_input_scale": (i, i),
+                "gmean": (float(fr(e["gpow"])) ** 0.5,) * 2, "hmean": (float(fr(e["h"])),) * 2, "amean": (float(fr(e["a"])),) * 2}
+        for name, (wf, wb) in want.items():
+            fname, f, extra, df = rng.choice(fns)
+            sf = scale_elementwise(f, o, i) if name == "__default__" else scale_elementwise(f, o, i, constraint=name)
+            x = torch.randn(rng.choice([(3,), (2, 3), ()]), dtype=torch.float64, requires_grad=True)
+            up = torch.randn(x.shape, dtype=torch.float64)
+            y = sf(x, *extra)
+            (g,) = torch.autograd.grad(y, x, up)
+            rep.case(("scale_elementwise", fname, str(name), str(so), str(si)))
+            if not torch.allclose(y.detach(), f(x.detach(), *extra) * wf, rtol=1e-12, atol=0) or not torch.allclose(g, df(x.detach()) * up * wb, rtol=1e-12, atol=0):
+                rep.beyond(f"scale_elementwise({fname}, {o}, {i}, constraint={name!r}): forward/backward scales are not ({wf}, {wb})")
+                return
+    for bad in ("bogus", "to_left_grad_scale"):
+        try:
+            scale_elementwise(torch.tanh, 1.0, 2.0, constraint=bad)
+            rep.beyond(f"scale_elementwise accepted the constraint name {bad!r}")
+        except (ValueError, TypeError):    # a known rule of the wrong arity fails with TypeError, an unknown name with ValueError
+            pass
+
+
 def run(rep: Report, tier: str) -> None:
     rng = random.Random(common.seed() * 41 + 10)
     torch.manual_seed(common.seed())
@@ -270,6 +306,7 @@ def run(rep: Report, tier: str) -> None:
         except (ValueError, TypeError):
             pass
     residual_fixed_group(rep, rng, 10 if quick else 1000)
+    scale_elementwise_cases(rep, rng, 12 if quick else 300)
     for cfg in base_cfgs(rng, 3 if quick else 250):
         check_op(rep, cfg, spec, rng, do_gradcheck=True)
     rep.traces = rep.evaluations
